@@ -612,7 +612,7 @@ def gen_cases(rng, tier):
             c["ragged"] = True
             cases.append(c)
     # sessions: several readings in one process, class hierarchies with the TableReader mixin, edits of produced values
-    sess = [gen_session_case(rng, "hier" if i % 2 else "alias") for i in range(1200 if big else 120)]
+    sess = [gen_session_case(rng, "hier" if i % 2 else "alias") for i in range(800 if big else 120)]
     # spread evenly (a session costs about three single readings: keeps the Coq shards balanced)
     stride = max(1, len(cases) // len(sess))
     out = []
